@@ -449,8 +449,8 @@ let () =
              | "atomic" -> process_runs (adder_comp atomic_adder (fun _ _ -> Z0) atomic_kind) s ic
              | "atomicf" -> process_runs (adder_comp atomic_f64_adder (fun _ _ -> Z0) atomic_kind) s ic
              | "mutexadd" -> process_runs (adder_comp mutex_adder (fun _ _ -> xinit) mutexadd_kind) s ic
-             | "breaker" -> process_runs (breaker_comp opts false) s ic
-             | "window" -> process_runs (breaker_comp opts true) s ic
+             | "breaker" -> loc_fn := Some (fun o -> breaker_loc (Obj.obj o)); process_runs (breaker_comp opts false) s ic
+             | "window" -> loc_fn := Some (fun o -> breaker_loc (Obj.obj o)); process_runs (breaker_comp opts true) s ic
              | "pool" -> process_runs (pool_comp opts s.threads) s ic
              | k -> failwith ("unknown kind " ^ k))
           | None -> ())
